@@ -62,11 +62,11 @@ def iff(a, b):
     return bool(a) == bool(b)
 
 
-def forall(coll, pred):
+def forall(coll, pred, trigger=None):
     return all(pred(x) for x in coll)
 
 
-def exists(coll, pred):
+def exists(coll, pred, trigger=None):
     return any(pred(x) for x in coll)
 
 
